@@ -281,8 +281,8 @@ add(
     "Histories cut at a tape-chosen position (incl. position 0, with pending / running / paused trials); the scheduler is restored by a "
     "dill round-trip (all families incl. GP) or its searcher by clone_from_state(pickle round-trip of get_state()) (random, grid, GP FIFO, "
     "GP multi-fidelity); restored and uninterrupted objects are driven in lockstep with the same continuation and must produce identical "
-    "suggestions and decisions. 1.4e4 model-free + 640 GP histories quick, 2.8e5 + 1e4 thorough.",
-    "Both twins live in one process (GP clone keeps its estimator, as documented). Tuner.save/load on whole simulated runs is not exercised separately (same dill path).",
+    "suggestions and decisions; GP snapshots are also restored into a newly constructed searcher (block-name counters reset, as after a restart); random search also with allow_duplicates=True; spaces incl. finrange / logfinrange. 1.4e4 model-free + 960 GP histories quick, 2.8e5 + 1.5e4 thorough.",
+    "Both twins live in one process (a restart is emulated by resetting the process-global block-name counters). Tuner.save/load on whole simulated runs is not exercised separately (same dill path).",
     "property-based testing (Hypothesis choice tape): metamorphic relation restore(snapshot) == uninterrupted, lockstep twins",
     "DESIGN.md 6/C16",
 )
